@@ -210,8 +210,25 @@ def run_case(case):
         cfg['paths_differ_only_in_extension'] = True
         cov['config']['paths_differ_only_in_extension'] = 1
 
+    # a source resource declares a legacy text encoding of its own: what the dump records describes what it wrote
+    declared_enc = None
+    if fmt in ('csv', 'json') and history == 'fresh' and boot.rng(case['seed'], 'C09', 'enc', case['idx']).random() < 0.15:
+        declared_enc = boot.rng(case['seed'], 'C09', 'enc/which', case['idx']).choice(['cp1252', 'latin-1', 'utf-16', 'cp1250'])
+        cfg['source_declares_encoding'] = declared_enc
+        cov['config']['source_declares_encoding/' + declared_enc] = 1
+    # the target directory holds a DIRECTORY where a data file has to go: the dump is refused or writes a regular file
+    # there - it does not 'succeed' with the file somewhere else
+    obstacle = kind == 'path' and fmt in ('csv', 'json') and history == 'fresh' and not same_stem and not filehash and \
+        boot.rng(case['seed'], 'C09', 'obstacle', case['idx']).random() < 0.1
+    if obstacle:
+        cfg['directory_where_a_data_file_goes'] = True
+        cov['config']['directory_where_a_data_file_goes'] = 1
+        os.makedirs(os.path.join('o1', res[0]['name'] + '.' + fmt, 'part-0'))
+
     def dump(out, sources=None):
         steps = sources or [lab.source(r['name'], r['fields'], r['rows']) for r in res]
+        if declared_enc:
+            steps.append(d.update_resource(res[0]['name'], encoding=declared_enc))
         if discarded:
             steps.append(d.update_resource(discarded, path=discarded + '.tsv'))
         if same_stem:
@@ -272,6 +289,9 @@ def run_case(case):
             prev = h
         sources = [d.load(prev + '/datapackage.json')]
     dp, stats, err = dump(out1, sources)
+    if err is not None and obstacle and isinstance(getattr(err, 'cause', err), OSError):
+        counters['files_measured'] += 1         # refused: nothing claims to describe a file
+        return dict(nontrivial=True, violations=viol, cov=cov, counters=counters, sample={'config': cfg})
     if err is not None:
         add('dump_failed', 'dump failed: %s: %s' % (type(err).__name__, str(err)[:300]), 'dump_failed/' + cset)
         return dict(nontrivial=False, violations=viol, cov=cov, counters=counters)
@@ -296,6 +316,13 @@ def run_case(case):
             data = w.read(path)
             counters['files_measured'] += 1
             full = True
+            if fmt in ('csv', 'json'):
+                try:
+                    data.decode(rd.get('encoding', 'utf-8'))
+                except Exception as e_:
+                    add('encoding', 'resource %s: the written file does not decode under the recorded encoding %r: %s'
+                        % (rd['name'], rd.get('encoding'), str(e_)[:100]), 'recorded_encoding_wrong/' + fmt)
+                    continue
             for key, actual, label in (('resource-bytes', len(data), 'bytes'),
                                        ('resource-hash', iolab.md5(data), 'hash'),
                                        ('resource-rowcount', iolab.count_data_rows(rd, data), 'rowcount')):
